@@ -160,7 +160,7 @@ def features(h, horizon):
         if op in ("stop", "kill"):
             i = e["i"]
             f.add(op)
-            keepn = [(i, a) for (j, a) in sent_by if j == i and (op == "stop" or prev["snapN"][i - 1][a] >= 0)]
+            keepn = [(i, a) for (j, a) in sent_by if j == i and (op == "stop" or max(prev["snapN"][i - 1][a].values()) >= 0)]
             keeps = [(i, a) for (j, a) in silenced if j == i and prev["sv"][i - 1][a] == 1 and (op == "stop" or prev["snapS"][i - 1][a] == 1)]
             downs[i] = {"kind": op, "sends": set(keepn), "sils": set(keeps)}
         if op == "start":
